@@ -557,7 +557,7 @@ func (r *renderer) renderFunc(sb *strings.Builder, e *Entity, key string) {
 			}
 			lhs := ""
 			if l.N != "" && cret != "void" {
-				lhs = "%" + l.N + " = "
+				lhs = lname(l.N) + " = "
 			}
 			fmt.Fprintf(sb, "  %sinvoke %s %s(%s)\n          to label %s unwind label %s%s\n", lhs, cret, gname(callee), cargs, lname(ts[0]), lname(ts[1]), r.mdAttach(l.Refs, " "))
 			open = false
@@ -614,7 +614,7 @@ func (r *renderer) renderFunc(sb *strings.Builder, e *Entity, key string) {
 			}
 			lhs := ""
 			if l.N != "" {
-				lhs = "%" + l.N + " = "
+				lhs = lname(l.N) + " = "
 			}
 			fmt.Fprintf(sb, "  %slandingpad { i8*, i32 }\n          cleanup\n", lhs)
 		case "inst", "void":
@@ -652,7 +652,7 @@ func (r *renderer) localType(name string) string {
 func (r *renderer) renderInst(l *Local) string {
 	lhs := ""
 	if l.N != "" {
-		lhs = "%" + l.N + " = "
+		lhs = lname(l.N) + " = "
 	}
 	md := r.mdAttach(l.Refs, ", ")
 	var phis, ops []string
@@ -831,9 +831,16 @@ func DupSites(src []Entity) []string {
 		}
 		seen[k] = true
 		ls := map[string]bool{}
+		unnamedValue := false
 		for _, l := range e.Locals {
 			if l.N == "" {
+				if l.LK == "param" || l.LK == "inst" {
+					unnamedValue = true
+				}
 				continue
+			}
+			if l.N == "n0" && unnamedValue {
+				out = append(out, "local:%0-numbered-twice")
 			}
 			if ls[l.N] {
 				out = append(out, "local:"+l.LK)
